@@ -732,6 +732,8 @@ def _atoms(g):
         if isinstance(e, ast.BoolOp) and ((isinstance(e.op, ast.And) and p) or (isinstance(e.op, ast.Or) and not p)):
             for v in e.values:
                 rec(v, p)
+        elif isinstance(e, ast.Constant) and bool(e.value) == p:
+            pass                      # a constant that trivially holds constrains nothing
         else:
             out.append((e, p))
     rec(t, pol)
@@ -925,11 +927,50 @@ def _mw_sites(repo):
                         yield m, f, n
 
 
+_FLIP = {ast.Is: 'is not', ast.IsNot: 'is', ast.Eq: '!=', ast.NotEq: '==', ast.In: 'not in', ast.NotIn: 'in',
+         ast.Lt: '>=', ast.GtE: '<', ast.Gt: '<=', ast.LtE: '>'}
+
+
+def _canon_atom(t, pol, at):
+    """canonical text of `t` holding with polarity `pol`: local aliases resolved, negation pushed into a comparison"""
+    seen = 0
+    while isinstance(t, ast.Name) and seen < 4:
+        rv = reaching_value(t.id, at)
+        if rv is None:
+            break
+        t, seen = rv, seen + 1
+        while isinstance(t, ast.UnaryOp) and isinstance(t.op, ast.Not):
+            t, pol = t.operand, not pol
+    if pol:
+        return norm(t)
+    if isinstance(t, ast.Compare) and len(t.ops) == 1 and type(t.ops[0]) in _FLIP:
+        return f"{norm(t.left)} {_FLIP[type(t.ops[0])]} {norm(t.comparators[0])}"
+    return f"not ({norm(t)})"
+
+
+def _guard_atoms_in_loop(node):
+    """(expr, polarity) atoms of every enclosing if-test and every earlier non-raising early exit, inside the innermost
+    enclosing loop of `node` (whole function when there is none)"""
+    lp = enclosing(node, (ast.For, ast.While))
+    fn = enclosing(node, (ast.FunctionDef, ast.AsyncFunctionDef, ast.Lambda))
+    if lp is not None and fn is not None and not any(lp is x for x in ast.walk(fn)):
+        lp = None
+    out = []
+    for g in guards_of(node, stop=lp):
+        if g.kind == 'if':
+            out += _atoms(g)
+        elif g.kind == 'exit':
+            exits = [x for b in g.exit_block for x in walk_no_nested(b)
+                     if isinstance(x, (ast.Raise, ast.Return, ast.Continue, ast.Break))]
+            if exits and not all(isinstance(x, ast.Raise) for x in exits):
+                out += _atoms(g)
+    return out
+
+
 def _mw_construct(rs):
-    ifs = [g for g in guards_of(rs) if g.kind == 'if']
-    if ifs:
-        g = ifs[0]
-        return f"raise MultiWriterError under: {'' if g.polarity else 'not '}{norm(g.test)}"
+    atoms = sorted({_canon_atom(t, pol, rs) for t, pol in _guard_atoms_in_loop(rs)})
+    if atoms:
+        return "raise MultiWriterError under: " + ' and '.join(atoms)
     h = enclosing(rs, (ast.ExceptHandler,))
     if h is not None:
         return f"raise MultiWriterError in except {norm(h.type)}"
@@ -1229,7 +1270,8 @@ def rule_porttable(repo):
     chain = chain[0]
     # DFS shape: the chain is checked for every newly visited neighbour, which is also pushed
     wl = enclosing(lp, (ast.While,))
-    gs_chain = [g for g in guards_of(chain) if g.kind == 'if']
+    gs_chain = [g for g in guards_of(chain, stop=lp) if g.kind in ('if', 'exit')
+                and not (isinstance(g.test, ast.Constant) and bool(g.test.value) == g.polarity)]
     visit_guard = [g for g in gs_chain if isinstance(g.test, ast.Compare) and len(g.test.ops) == 1
                    and isinstance(g.test.ops[0], (ast.In, ast.NotIn)) and norm(g.test.left) == v]
     cons = 'DFS over the net: every edge to an unvisited neighbour is checked and the neighbour expanded'
@@ -1238,7 +1280,9 @@ def rule_porttable(repo):
         g = visit_guard[0]
         vis = norm(g.test.comparators[0])
         unvisited = (isinstance(g.test.ops[0], ast.NotIn)) == g.polarity
-        blk = g.node.body if g.polarity else g.node.orelse
+        pc = parent(chain)      # the statement list the relation chain lives in (if-body or, after an early
+        blk = [l for l in (getattr(pc, 'body', None), getattr(pc, 'orelse', None)) if l and chain in l]   # `continue`, the loop body)
+        blk = blk[0] if blk else []
         top_calls = [s.value for s in blk if isinstance(s, ast.Expr) and isinstance(s.value, ast.Call)]
         marks = any(norm(c.func) == f"{vis}.add" and [norm(a) for a in c.args] == [v] for c in top_calls)
         stack = isinstance(wl.test, ast.Name) and wl.test.id
@@ -1321,9 +1365,17 @@ def rule_optable(repo):
               "the assignment-operator rules are not enforced", f.lineno)
         r.require_floor(1)
         return r
-    blk = parent(ifs[0])
-    L = blk.body if ifs[0] in blk.body else blk.orelse
-    start = [i for i, s in enumerate(L) if any(isinstance(x, ast.Name) and x.id == p_wr for x in ast.walk(s))]
+    cur, L, start = ifs[0], None, []
+    while True:       # climb to the statement list that holds the is_write test (it may enclose the kind split)
+        blk = parent(cur)
+        lists = [l for l in (getattr(blk, 'body', None), getattr(blk, 'orelse', None)) if l and cur in l]
+        if not lists:
+            break
+        L = lists[0]
+        start = [i for i, s2 in enumerate(L) if any(isinstance(x, ast.Name) and x.id == p_wr for x in ast.walk(s2))]
+        if start or isinstance(blk, (ast.FunctionDef, ast.For, ast.While)):
+            break
+        cur = blk
     if not start:
         raise AnalysisError(f"{fq}: the write checks are not under an is_write test")
     L = L[start[0]:]
@@ -1469,7 +1521,8 @@ def rule_nowriter(repo):
             if got != want:
                 wrong = wrong or (nets, got, want)
         cons = 'raise NoWriterError iff some net has writer None, first thing'
-        loops_before = [s for s in before if isinstance(s, (ast.For, ast.While))]
+        loops_before = [s for s in before if isinstance(s, (ast.For, ast.While))
+                        and any(isinstance(x, ast.Raise) for x in ast.walk(s))]
         if wrong:
             nets, got, want = wrong
             r.bad(m, fq, cons, f"for nets with writers {[w if w is None else 'w' for w, _ in nets]} NoWriterError is "
@@ -1482,36 +1535,28 @@ def rule_nowriter(repo):
     # _resolve_value_connections keeps the headless nets
     m3, g = _func_of(repo, L3, 'ComponentLevel3._resolve_value_connections')
     gq = 'ComponentLevel3._resolve_value_connections'
-    rets = [n for n in walk_no_nested(g) if isinstance(n, ast.Return)]
-    if len(rets) != 1 or rets[0].value is None:
-        raise AnalysisError(f"{gq}: expected a single return")
-    names = sorted({n.id for n in ast.walk(rets[0].value) if isinstance(n, ast.Name) and isinstance(n.ctx, ast.Load)}
-                   - {'None'})
-    comp_t = {n.id for n in ast.walk(rets[0].value) if isinstance(n, ast.Name) and isinstance(n.ctx, ast.Store)}
-    free = [n for n in names if n not in comp_t]
-    # which free name is the headed list: the one receiving (writer, net) tuples
-    headed = [n for n in free if any(isinstance(c, ast.Call) and norm(c.func) == f"{n}.append" and c.args and
-                                     isinstance(c.args[0], ast.Tuple) for c in walk_no_nested(g))]
-    headless = [n for n in free if n not in headed]
-    cons = norm(rets[0])
-    whiles = [n for n in walk_no_nested(g) if isinstance(n, ast.While) and isinstance(n.test, ast.Name)]
-    if len(headed) != 1 or len(headless) != 1:
-        r.bad(m3, gq, cons, "the result is not headed nets + headless nets: nets without writer are silently dropped "
-              "and never reported", rets[0].lineno)
-        headless = [w.test.id for w in whiles][:1]
+    whiles = [n for n in g.body if isinstance(n, ast.While) and isinstance(n.test, ast.Name)]
+    if len(whiles) != 1:
+        raise AnalysisError(f"{gq}: expected one top-level `while <headless nets>` work loop")
+    hl0 = whiles[0].test.id
+    headed = sorted({c.func.value.id for c in walk_no_nested(whiles[0]) if isinstance(c, ast.Call)
+                     and isinstance(c.func, ast.Attribute) and c.func.attr == 'append' and isinstance(c.func.value, ast.Name)
+                     and c.args and isinstance(c.args[0], ast.Tuple) and len(c.args[0].elts) == 2})
+    if len(headed) != 1:
+        raise AnalysisError(f"{gq}: the list receiving (writer, net) pairs was not found")
+    tail = g.body[g.body.index(whiles[0]) + 1:]
+    cons = 'result = headed nets + (None, net) for every net left headless'
+    ev = Abs({headed[0]: [('w', 'n1')], hl0: ['n2', 'n3']}, arith=True)
+    out = run_block(ev, tail)      # the statements after the work loop, up to the return (loop or comprehension form)
+    r.evaluations += 1
+    val = out[1] if out[0] == 'return' else out
+    val = [tuple(x) if isinstance(x, (tuple, list)) else x for x in val] if isinstance(val, list) else val
+    if isinstance(val, list) and sorted(val, key=repr) == sorted([('w', 'n1'), (None, 'n2'), (None, 'n3')], key=repr):
+        r.ok(m3, gq, cons)
     else:
-        ev = Abs({headed[0]: [('w', 'n1')], headless[0]: ['n2', 'n3']}, arith=True)
-        try:
-            val = ev.ev(rets[0].value)
-        except Raised as e:
-            val = e.what
-        r.evaluations += 1
-        val = [tuple(x) if isinstance(x, (tuple, list)) else x for x in val] if isinstance(val, list) else val
-        if isinstance(val, list) and sorted(val, key=repr) == sorted([('w', 'n1'), (None, 'n2'), (None, 'n3')], key=repr):
-            r.ok(m3, gq, cons)
-        else:
-            r.bad(m3, gq, cons, f"with one headed and two headless nets the result is {val}: headless nets must be returned "
-                  "as (None, net) so that NoWriterError is raised", rets[0].lineno)
+        r.bad(m3, gq, cons, f"with one headed and two headless nets the result is {val}: headless nets must be returned "
+              "as (None, net) so that NoWriterError is raised; they are silently dropped", g.lineno)
+    headless = [hl0]
     # nets that found no writer in a round stay in the work list
     cons2 = 'a net without writer in this round is carried over to the next round / the result'
     ok2 = False
@@ -1555,7 +1600,7 @@ def rule_loop(repo):
         lp = enclosing(x, (ast.For,))
         if lp is None or not isinstance(lp.iter, ast.Subscript) or not isinstance(lp.target, ast.Name):
             raise AnalysisError(f"{fq}: loop-detection raise is not inside the neighbour loop")
-        atoms = [a for g in guards_of(x, stop=lp) if g.kind == 'if' for a in _atoms(g)]
+        atoms = [a for a in _guard_atoms_in_loop(x)]
         v, u = lp.target.id, norm(lp.iter.slice)
         visited = pred_ok = False
         extra = []
@@ -2044,6 +2089,26 @@ EQUIV = [
     _m('nowriter-comprehension-renamed', L3, "headless = [ signals for writer, signals in nets if writer is None ]", "headless = [ sigs for w, sigs in nets if w is None ]"),
     _m('loop-test-sides-swapped', L3, "            elif v is not pred[u]:", "            elif pred[u] is not v:"),
     _m('import-split', CONN, "from .errors import InvalidConnectionError, InvalidPlaceholderError", "from .errors import InvalidConnectionError\nfrom .errors import InvalidPlaceholderError"),
+    # nested / merged ifs, flipped branches, local aliases, loop <-> comprehension
+    _m('mw-sibling-nested-ifs', L2, "        if x.slice_overlap( obj ) and x in write_upblks:\n          wrx_blks = list(write_upblks[x])\n          raise MultiWriterError( \\\n            \"Two-writer conflict between sibling slices.",
+       "        if x.slice_overlap( obj ):\n         if x in write_upblks:\n          wrx_blks = list(write_upblks[x])\n          raise MultiWriterError( \\\n            \"Two-writer conflict between sibling slices."),
+    _m('mw-sibling-conjuncts-swapped', L2, "        if x.slice_overlap( obj ) and x in write_upblks:", "        if x in write_upblks and x.slice_overlap( obj ):"),
+    _m('mw-sibling-early-continue', L2, "        if x.slice_overlap( obj ) and x in write_upblks:", "        if not x.slice_overlap( obj ): continue\n        if x in write_upblks:"),
+    _m('mw-sibling-alias', L2, "        if x.slice_overlap( obj ) and x in write_upblks:", "        ov = x.slice_overlap( obj )\n        if ov and x in write_upblks:"),
+    _m('mw-ancestor-nested-ifs', L2, "        if x is not obj and x in write_upblks:", "        if x is not obj:\n         if x in write_upblks:"),
+    _m('mw-parent-merged-if', L2, "          wrx_blks = list(write_upblks[x])\n\n          if wrx_blks[0] != wr_blks[0]:\n            raise MultiWriterError( \\\n            \"Two-writer conflict in nested",
+       "          wrx_blks = list(write_upblks[x])\n\n          if wrx_blks[0] != wr_blks[0] and True:\n            raise MultiWriterError( \\\n            \"Two-writer conflict in nested"),
+    _m('dfs-visited-early-continue', L3, "          if v not in visited:\n            visited.add( v )", "          if v in visited: continue\n          if True:\n            visited.add( v )"),
+    _m('port-valid-inlined', L3, "              valid = isinstance( u, OutPort ) and isinstance( v, InPort )\n\n              if not valid:", "              if not (isinstance( u, OutPort ) and isinstance( v, InPort )):"),
+    _m('port-upblk-nested-ifs', L2, "        elif isinstance( obj, OutPort ):\n          if blk_hostobj != host:", "        elif isinstance( obj, OutPort ) and blk_hostobj != host:\n          if True:"),
+    _m('nowriter-loop-form', L3, "    headless = [ signals for writer, signals in nets if writer is None ] # remove None\n",
+       "    headless = []\n    for writer, signals in nets:\n      if writer is None:\n        headless.append( signals )\n"),
+    _m('nowriter-return-loop-form', L3, "    return headed + [ (None, x) for x in headless ]", "    for x in headless:\n      headed.append( (None, x) )\n    return headed"),
+    _m('nowriter-requeue-flipped', L3, "        if not has_writer:\n          new_headless.append( net )\n          continue\n", "        if has_writer:\n          pass\n        else:\n          new_headless.append( net )\n          continue\n"),
+    _m('loop-early-continue', L3, "            if v not in visited:\n              pred[v] = u\n              Q.append( v )\n            elif v is not pred[u]:", "            if v not in visited:\n              pred[v] = u\n              Q.append( v )\n              continue\n            if v is not pred[u]:"),
+    _m('loop-nested-else', L3, "            elif v is not pred[u]:\n              raise", "            else:\n             if v is not pred[u]:\n              raise"),
+    _m('optable-skip-split', L2, "          if not is_write or not objs:\n            all_objs |= objs\n            continue\n", "          if not is_write:\n            all_objs |= objs\n            continue\n          if not objs:\n            continue\n"),
+    _m('optable-update-flipped', L2, "            elif not isinstance( op, ast.MatMult ):\n              if isinstance( op, ast.LShift ):", "            elif isinstance( op, ast.MatMult ):\n              pass\n            else:\n              if isinstance( op, ast.LShift ):"),
     _m('dfs-mark-after-push', L3, "            visited.add( v )\n            S.append( v )\n", "            S.append( v )\n            visited.add( v )\n"),
 ]
 
